@@ -5,7 +5,9 @@
 (* (call_when_ready callbacks and listen_to_dependencies sinks: new /       *)
 (* pending with a dependency set / fired), the listener wiring and          *)
 (* attributes a fired sink has received, the lifecycle events raised so     *)
-(* far and the outstanding GoingUp deferrals.                               *)
+(* far and the outstanding GoingUp deferrals.  Callbacks and the handlers  *)
+(* of GoingUp / Up / ComponentRegistered run small PROGRAMS re-entrantly     *)
+(* (take / call deferrals, register, call_when_ready, raise).               *)
 (*                                                                          *)
 (* One action per PUBLIC call made from outside core (register,             *)
 (* call_when_ready, listen_to_dependencies, goUp, a deferral being obtained *)
@@ -29,41 +31,65 @@ CONSTANTS Comps,        \* component names
           Sources,      \* components whose object raises events (has _eventMixin_events)
           Waiters,      \* waiter identifiers
           Kind,         \* [Waiters -> {"cb", "sink"}]
-          Script,       \* [Waiters -> what the callback / _all_dependencies_met does]
+          Script,       \* [Waiters -> program run by the callback / _all_dependencies_met]
           Handles,      \* [Waiters -> SUBSET Comps]: c such that the sink has _handle_<c>_Ev
           DepSets,      \* dependency sets a declaration may name (explicit ones for sinks)
-          HandlerSeqs,  \* scripts of the GoingUp handlers that are explored
-          UpRegs,       \* what the Up handler registers: "none" or a component
+          HandlerSeqs,  \* explored GoingUp handler lists: sequences of programs
+          UpProgs,      \* explored programs of the Up handler
+          CRProg,       \* [on, p]: program p run by a ComponentRegistered handler when
+                        \* component `on` is first registered ("none": no such handler)
           QuitOn,       \* whether quit() is explored in this configuration
           QuitDeferred, \* whether quit() is explored while going up is still deferred
-          DefCap,       \* a deferral is obtained after goUp() only while fewer were handed out
+          DefCap,       \* how many deferrals are obtained from outside handlers after goUp()
           D             \* export depth (simulation)
 
-\* scripts: what a waiter's callback does when it is invoked
-SNone           == [k |-> "none",     c |-> "-", w |-> "-", d |-> {}]
-SThrow          == [k |-> "throw",    c |-> "-", w |-> "-", d |-> {}]
-SReg(c)         == [k |-> "reg",      c |-> c,   w |-> "-", d |-> {}]   \* core.register(c)
-SRegThrow(c)    == [k |-> "regthrow", c |-> c,   w |-> "-", d |-> {}]   \* register, then raise
-SCwr(w, d)      == [k |-> "cwr",      c |-> "-", w |-> w,   d |-> d]    \* core.call_when_ready(w, d) unless w was declared
+\* ---- handler programs: what a callback / event handler does, RE-ENTRANTLY,
+\* while core is in the middle of register() / goUp() / a deferral call.
+\* A program is a sequence of operations [k, c, w, d]:
+\*   acq     take a go-up deferral and keep it (called later by Release(owner))
+\*   sync    take a go-up deferral and call it at once
+\*   relprev (GoingUp handlers) call the deferral kept by the nearest earlier handler
+\*   reg     core.register(c)
+\*   cwr     core.call_when_ready(w, d) unless w was declared already
+\*   raise   raise an exception (ends the program)
+Op(k, c, w, d) == [k |-> k, c |-> c, w |-> w, d |-> d]
+OAcq       == Op("acq", "-", "-", {})
+OSync      == Op("sync", "-", "-", {})
+ORelPrev   == Op("relprev", "-", "-", {})
+OReg(c)    == Op("reg", c, "-", {})
+OCwr(w, d) == Op("cwr", "-", w, d)
+ORaise     == Op("raise", "-", "-", {})
+\* the callback scripts of the rendezvous catalogs
+SNone        == <<>>
+SThrow       == <<ORaise>>
+SReg(c)      == <<OReg(c)>>
+SRegThrow(c) == <<OReg(c), ORaise>>
+SCwr(w, d)   == <<OCwr(w, d)>>
+NoCR         == [on |-> "none", p |-> <<>>]
 
-HandlerKinds == {"none", "hold", "sync", "relprev"}
-\* none: ignores the event; hold: event.get_deferral(), kept for later;
-\* sync: get_deferral() and call it at once; relprev: calls the oldest
-\* outstanding deferral obtained by an earlier handler
+\* a kept deferral is named after who took it: GoingUp handler i ("g1".."g3"),
+\* the Up handler ("up"), the ComponentRegistered handler ("cr"), a waiter
+\* (its id), or a caller outside any handler after goUp() ("l1".."l4")
+GName(i) == CASE i = 1 -> "g1" [] i = 2 -> "g2" [] OTHER -> "g3"
+LName(i) == CASE i = 1 -> "l1" [] i = 2 -> "l2" [] i = 3 -> "l3" [] OTHER -> "l4"
+GNames == {GName(i) : i \in 1..3}
+LNames == {LName(i) : i \in 1..4}
+Owners == GNames \cup LNames \cup {"up", "cr"} \cup Waiters
 
 VARIABLES comps,    \* registered component names
           wst,      \* [Waiters -> {"new","pending","fired"}]
           wdeps,    \* [Waiters -> SUBSET Comps] dependencies of a pending waiter ({} otherwise)
           wired,    \* {<<sink, c>>}: an event raised by component c reaches the sink's handler
           attrs,    \* {<<sink, c>>}: sink._c_ has been set
+          crdone,   \* the ComponentRegistered handler's program has run
           life,     \* sequence of lifecycle events raised so far
-          defs,     \* outstanding deferral ids
-          ndefs,    \* deferrals handed out so far (ids 1..ndefs)
-          upreg,    \* what the Up handler will register
+          defs,     \* owners of the outstanding deferrals (Up waits for them)
+          handed,   \* owners of all kept deferrals handed out so far
+          upprog,   \* program of the Up handler
           last,     \* observation of the last action
           hist      \* all observations (export only; hidden by VIEW)
-rvars == <<comps, wst, wdeps, wired, attrs>>
-lvars == <<life, defs, ndefs, upreg>>
+rvars == <<comps, wst, wdeps, wired, attrs, crdone>>
+lvars == <<life, defs, handed, upprog>>
 vars  == <<rvars, lvars, last, hist>>
 view  == <<rvars, lvars, last>>
 viewE == <<rvars, lvars>>
@@ -73,13 +99,14 @@ InSeq(e, s) == \E i \in DOMAIN s : s[i] = e
 
 Fire_(w, cs)  == [k |-> "fire", n |-> w, s |-> cs]
 Life_(ev, cs) == [k |-> "life", n |-> ev, s |-> cs]
+CR_(c, cs)    == [k |-> "cr", n |-> c, s |-> cs]
 
 NoObs == [a |-> "Init", args |-> [x |-> 0], exp |-> [x |-> 0]]
 
 Init == /\ comps = {} /\ wst = [w \in Waiters |-> "new"]
         /\ wdeps = [w \in Waiters |-> {}]
-        /\ wired = {} /\ attrs = {}
-        /\ life = <<>> /\ defs = {} /\ ndefs = 0 /\ upreg = "none"
+        /\ wired = {} /\ attrs = {} /\ crdone = FALSE
+        /\ life = <<>> /\ defs = {} /\ handed = {} /\ upprog = <<>>
         /\ last = NoObs /\ hist = <<>>
 
 Log(a, args, exp) ==
@@ -87,37 +114,88 @@ Log(a, args, exp) ==
   /\ hist' = Append(hist, [a |-> a, args |-> args, exp |-> exp])
 
 ----------------------------------------------------------------------------
-(* Firing: x = [c, st, dp, wr, at, lg] is the state inside a public call.   *)
+(* The state inside a public call: x = [c, st, dp, wr, at, crd, crp, lf, df,  *)
+(* hd, lg]; crp = the ComponentRegistered program is due, lg = callback log. *)
 
-Base == [c |-> comps, st |-> wst, dp |-> wdeps, wr |-> wired, at |-> attrs, lg |-> <<>>]
+Base == [c |-> comps, st |-> wst, dp |-> wdeps, wr |-> wired, at |-> attrs,
+         crd |-> crdone, crp |-> FALSE, lf |-> life, df |-> defs, hd |-> handed,
+         lg |-> <<>>]
+
+RegIn(x, c) == [x EXCEPT !.c = @ \cup {c},
+                         !.crp = @ \/ (CRProg.on = c /\ ~x.crd)]
+
+\* one operation of a program run by `owner`.  A deferral taken once Up has
+\* been raised defers nothing (it is handed out but not outstanding); "sync"
+\* never changes anything: whatever is outstanding is still outstanding, and
+\* when nothing is, either start-up has not begun, or Up is being / has been
+\* raised already.
+GIdx(o) == CHOOSE i \in 1..3 : GName(i) = o
+ApplyOp(x, op, owner) ==
+  CASE op.k = "reg" -> RegIn(x, op.c)
+    [] op.k = "cwr" -> IF x.st[op.w] = "new"
+                       THEN [x EXCEPT !.st[op.w] = "pending", !.dp[op.w] = op.d]
+                       ELSE x
+    [] op.k = "acq" -> [x EXCEPT !.hd = @ \cup {owner},
+                                 !.df = IF InSeq("Up", x.lf) THEN @ ELSE @ \cup {owner}]
+    [] op.k = "relprev" ->
+         LET cs == {i \in 1..3 : GName(i) \in x.df /\ owner \in GNames /\ i < GIdx(owner)}
+         IN IF cs = {} THEN x ELSE [x EXCEPT !.df = @ \ {GName(MinOf(cs))}]
+    [] OTHER -> x
+
+\* a program run by a waiter callback or the ComponentRegistered handler:
+\* whatever it makes ready fires nested or later in the same public call
+RECURSIVE RunProg(_, _, _)
+RunProg(x, p, o) ==
+  IF p = <<>> \/ Head(p).k = "raise" THEN x
+  ELSE RunProg(ApplyOp(x, Head(p), o), Tail(p), o)
 
 Ready(x) == {w \in Waiters : x.st[w] = "pending" /\ x.dp[w] \subseteq x.c}
 
 Fire(x, w) ==
-  LET sc == Script[w]
-      sk == Kind[w] = "sink"
+  LET sk == Kind[w] = "sink"
       x1 == [x EXCEPT !.st[w] = "fired", !.dp[w] = {},
                       !.lg = Append(@, Fire_(w, x.c)),
                       !.wr = IF sk THEN @ \cup {<<w, c>> : c \in (Handles[w] \cap Sources)} ELSE @,
                       !.at = IF sk THEN @ \cup {<<w, c>> : c \in x.dp[w]} ELSE @]
-  IN CASE sc.k \in {"reg", "regthrow"} -> [x1 EXCEPT !.c = @ \cup {sc.c}]
-       [] sc.k = "cwr" -> IF x1.st[sc.w] = "new"
-                          THEN [x1 EXCEPT !.st[sc.w] = "pending", !.dp[sc.w] = sc.d]
-                          ELSE x1
-       [] OTHER -> x1
+  IN RunProg(x1, Script[w], w)
 
-\* every way of firing ready waiters until none is left
+RunCR(x) ==
+  RunProg([x EXCEPT !.crp = FALSE, !.crd = TRUE, !.lg = Append(@, CR_(CRProg.on, x.c))],
+          CRProg.p, "cr")
+
+\* every way of firing ready waiters (and the due ComponentRegistered program)
+\* until nothing is left
 RECURSIVE Settle(_)
-Settle(x) == IF Ready(x) = {} THEN {x}
-             ELSE UNION {Settle(Fire(x, w)) : w \in Ready(x)}
+Settle(x) ==
+  IF Ready(x) = {} /\ ~x.crp THEN {x}
+  ELSE UNION ({Settle(Fire(x, w)) : w \in Ready(x)}
+              \cup (IF x.crp THEN {Settle(RunCR(x))} ELSE {}))
+
+\* a program run by a GoingUp / Up handler: these handlers run one after the
+\* other, and what one operation makes ready has fired before the next one
+RECURSIVE SeqProg(_, _, _)
+SeqProg(X, p, o) ==
+  IF p = <<>> \/ Head(p).k = "raise" THEN X
+  ELSE SeqProg(UNION {Settle(ApplyOp(x, Head(p), o)) : x \in X}, Tail(p), o)
+
+RECURSIVE SeqHandlers(_, _, _)
+SeqHandlers(X, hs, i) ==
+  IF i > Len(hs) THEN X ELSE SeqHandlers(SeqProg(X, hs[i], GName(i)), hs, i + 1)
+
+\* Up is raised: its handler sees the registry, then runs its program
+UpStep(X, up) ==
+  SeqProg({[x EXCEPT !.lf = Append(@, "Up"), !.lg = Append(@, Life_("Up", x.c))] : x \in X},
+          up, "up")
 
 NoLog(x) == [x EXCEPT !.lg = <<>>]
 
 Commit(a, args, outs) ==
   LET fin == CHOOSE o \in outs : TRUE IN
   /\ Assert(\A o \in outs : NoLog(o) = NoLog(fin), "confluence")
+  /\ Assert(~fin.crp, "ComponentRegistered program left over")
   /\ comps' = fin.c /\ wst' = fin.st /\ wdeps' = fin.dp
-  /\ wired' = fin.wr /\ attrs' = fin.at
+  /\ wired' = fin.wr /\ attrs' = fin.at /\ crdone' = fin.crd
+  /\ life' = fin.lf /\ defs' = fin.df /\ handed' = fin.hd
   /\ Log(a, args, [logs |-> {o.lg : o \in outs}, comps |-> fin.c,
                    wired |-> fin.wr, attrs |-> fin.at])
 
@@ -125,101 +203,79 @@ Commit(a, args, outs) ==
 (* Rendezvous operations                                                     *)
 
 Register(c) ==
-  /\ Commit("Register", [c |-> c], Settle([Base EXCEPT !.c = @ \cup {c}]))
-  /\ UNCHANGED lvars
+  /\ Commit("Register", [c |-> c], Settle(RegIn(Base, c)))
+  /\ UNCHANGED upprog
 
 CallWhenReady(w, d) ==
   /\ Kind[w] = "cb" /\ wst[w] = "new"
   /\ Commit("CallWhenReady", [w |-> w, deps |-> d],
             Settle([Base EXCEPT !.st[w] = "pending", !.dp[w] = d]))
-  /\ UNCHANGED lvars
+  /\ UNCHANGED upprog
 
 \* dependencies = components named by the sink's handlers + explicit ones
 ListenTo(s, e) ==
   /\ Kind[s] = "sink" /\ wst[s] = "new"
   /\ Commit("ListenTo", [w |-> s, deps |-> e],
             Settle([Base EXCEPT !.st[s] = "pending", !.dp[s] = Handles[s] \cup e]))
-  /\ UNCHANGED lvars
+  /\ UNCHANGED upprog
 
 ----------------------------------------------------------------------------
 (* Lifecycle                                                                 *)
 
-\* outstanding deferrals / number handed out after the GoingUp handlers ran
-RECURSIVE RunHandlers(_, _, _)
-RunHandlers(hs, ds, n) ==
-  IF hs = <<>> THEN [ds |-> ds, n |-> n]
-  ELSE LET h == Head(hs) IN
-       CASE h = "hold"    -> RunHandlers(Tail(hs), ds \cup {n + 1}, n + 1)
-         [] h = "sync"    -> RunHandlers(Tail(hs), ds, n + 1)
-         [] h = "relprev" -> RunHandlers(Tail(hs), IF ds = {} THEN ds ELSE ds \ {MinOf(ds)}, n)
-         [] OTHER         -> RunHandlers(Tail(hs), ds, n)
-
-\* Up is raised: its handler sees the registry, then registers `ur`
-UpOuts(prefix, ur) ==
-  Settle([Base EXCEPT !.lg = Append(prefix, Life_("Up", comps)),
-                      !.c = IF ur = "none" THEN @ ELSE @ \cup {ur}])
-
-GoUp(hs, ur) ==
+\* goUp(): the GoingUp handlers run their programs in order (an observer that
+\* is subscribed last then logs GoingUp); Up follows at once iff no deferral is
+\* outstanding
+GoUp(hs, up) ==
   /\ life = <<>>
-  /\ LET r == RunHandlers(hs, {}, 0)
-         p == <<Life_("GoingUp", comps)>> IN
-     /\ defs' = r.ds /\ ndefs' = r.n /\ upreg' = ur
-     /\ IF r.ds = {}
-        THEN /\ life' = <<"GoingUp", "Up">>
-             /\ Commit("GoUp", [hs |-> hs, ur |-> ur], UpOuts(p, ur))
-        ELSE /\ life' = <<"GoingUp">>
-             /\ Commit("GoUp", [hs |-> hs, ur |-> ur], {[Base EXCEPT !.lg = p]})
+  /\ upprog' = up
+  /\ LET X1 == SeqHandlers({[Base EXCEPT !.lf = <<"GoingUp">>]}, hs, 1)
+         X2 == {[x EXCEPT !.lg = Append(@, Life_("GoingUp", x.c))] : x \in X1}
+         one == CHOOSE x \in X2 : TRUE
+     IN Commit("GoUp", [hs |-> hs, up |-> up],
+               IF one.df = {} THEN UpStep(X2, up) ELSE X2)
 
-\* a deferral is obtained after goUp() returned (from the kept GoingUp event).
-\* While start-up is still deferred it is one more outstanding deferral; once
-\* nothing is outstanding any more there is nothing left to defer, and calling
-\* it later must not raise Up again.
-MaxDefs == 4
+\* a deferral is obtained outside any handler after goUp() returned (from the
+\* kept GoingUp event)
+NLate == Cardinality(handed \cap LNames)
 GetDeferral ==
-  /\ InSeq("GoingUp", life) /\ ndefs < DefCap /\ ndefs < MaxDefs
-  /\ ndefs' = ndefs + 1
-  /\ defs' = IF defs # {} THEN defs \cup {ndefs + 1} ELSE defs
-  /\ UNCHANGED <<life, upreg>>
-  /\ Commit("GetDeferral", [x |-> 0], {Base})
+  /\ InSeq("GoingUp", life) /\ NLate < DefCap /\ NLate < 4
+  /\ UNCHANGED upprog
+  /\ Commit("GetDeferral", [x |-> 0], {ApplyOp(Base, OAcq, LName(NLate + 1))})
 
-\* deferral d is called (again, if d is no longer outstanding)
-Release(d) ==
-  /\ d \in 1..ndefs
-  /\ UNCHANGED <<ndefs, upreg>>
-  /\ IF d \notin defs
-     THEN /\ UNCHANGED <<life, defs>>
-          /\ Commit("Release", [d |-> d], {Base})
-     ELSE /\ defs' = defs \ {d}
-          /\ IF defs' = {} /\ ~InSeq("Up", life)
-             THEN \/ /\ life' = Append(life, "Up")
-                     /\ Commit("Release", [d |-> d], UpOuts(<<>>, upreg))
-                  \/ \* the system was shut down while going up was deferred:
-                     \* the property does not say whether Up is still raised
-                     /\ InSeq("GoingDown", life)
-                     /\ UNCHANGED life
-                     /\ Commit("Release", [d |-> d], {Base})
-             ELSE /\ UNCHANGED life
-                  /\ Commit("Release", [d |-> d], {Base})
+\* the deferral kept by `o` is called (again, if it is no longer outstanding).
+\* Before goUp() this only means that goUp() need not wait for it.
+Release(o) ==
+  /\ o \in handed
+  /\ UNCHANGED upprog
+  /\ IF o \notin defs
+     THEN Commit("Release", [o |-> o], {Base})
+     ELSE LET x0 == [Base EXCEPT !.df = @ \ {o}] IN
+          IF x0.df = {} /\ InSeq("GoingUp", life) /\ ~InSeq("Up", life)
+          THEN \/ Commit("Release", [o |-> o], UpStep({x0}, upprog))
+               \/ \* the system was shut down while going up was deferred:
+                  \* the property does not say whether Up is still raised
+                  /\ InSeq("GoingDown", life)
+                  /\ Commit("Release", [o |-> o], {x0})
+          ELSE Commit("Release", [o |-> o], {x0})
 
 \* core.quit(); re: a GoingDown handler calls core.quit() again
 Quit(re) ==
   /\ QuitOn
   /\ InSeq("GoingUp", life)
   /\ (QuitDeferred \/ defs = {} \/ InSeq("GoingDown", life))
-  /\ UNCHANGED <<defs, ndefs, upreg>>
+  /\ UNCHANGED upprog
   /\ IF InSeq("GoingDown", life)
-     THEN /\ UNCHANGED life
-          /\ Commit("Quit", [re |-> re], {Base})
-     ELSE /\ life' = life \o <<"GoingDown", "Down">>
-          /\ Commit("Quit", [re |-> re],
-                    {[Base EXCEPT !.lg = <<Life_("GoingDown", comps), Life_("Down", comps)>>]})
+     THEN Commit("Quit", [re |-> re], {Base})
+     ELSE Commit("Quit", [re |-> re],
+                 {[Base EXCEPT !.lf = @ \o <<"GoingDown", "Down">>,
+                               !.lg = <<Life_("GoingDown", comps), Life_("Down", comps)>>]})
 
 Next == \/ \E c \in Comps : Register(c)
         \/ \E w \in Waiters, d \in DepSets : CallWhenReady(w, d)
         \/ \E s \in Waiters, e \in DepSets : ListenTo(s, e)
-        \/ \E hs \in HandlerSeqs, ur \in UpRegs : GoUp(hs, ur)
+        \/ \E hs \in HandlerSeqs, up \in UpProgs : GoUp(hs, up)
         \/ GetDeferral
-        \/ \E d \in 1..MaxDefs : Release(d)
+        \/ \E o \in Owners : Release(o)
         \/ \E re \in BOOLEAN : Quit(re)
 
 Spec == Init /\ [][Next]_vars
@@ -234,7 +290,8 @@ TypeOK == /\ comps \subseteq Comps
           /\ wst \in [Waiters -> States]
           /\ wdeps \in [Waiters -> SUBSET Comps]
           /\ wired \subseteq (Waiters \X Comps) /\ attrs \subseteq (Waiters \X Comps)
-          /\ defs \subseteq 1..ndefs /\ upreg \in Comps \cup {"none"}
+          /\ crdone \in BOOLEAN
+          /\ defs \subseteq handed /\ handed \subseteq Owners
           /\ \A i \in DOMAIN life : life[i] \in LifeEvents
 
 \* "immediately once they are": when a public call returns no waiter is left
@@ -259,20 +316,24 @@ LifeOK ==
   /\ (InSeq("GoingUp", life) /\ defs = {} /\ ~InSeq("Up", life)) => InSeq("GoingDown", life)
   /\ InSeq("GoingDown", life) => /\ InSeq("Down", life)
                                  /\ Pos("Down") = Pos("GoingDown") + 1
-  /\ ndefs > 0 => InSeq("GoingUp", life)
 
 \* ---- action properties: what the log of one public call may contain
 Logs == IF "logs" \in DOMAIN last'.exp THEN last'.exp.logs ELSE {}
 FiresOf(lg, w) == {i \in DOMAIN lg : lg[i].k = "fire" /\ lg[i].n = w}
 LifeOf(lg) == SelectSeq(lg, LAMBDA e : e.k = "life")
+OpsOf(p) == {p[i] : i \in DOMAIN p}
 
-\* dependencies a waiter fired by this call was declared with
+\* dependency sets a waiter fired by this call may have been declared with
 DeclDeps(w) ==
-  IF wst[w] = "pending" THEN wdeps[w]
-  ELSE IF last'.a = "CallWhenReady" /\ last'.args.w = w THEN last'.args.deps
-  ELSE IF last'.a = "ListenTo" /\ last'.args.w = w THEN Handles[w] \cup last'.args.deps
-  ELSE LET ds == {Script[v].d : v \in {u \in Waiters : Script[u].k = "cwr" /\ Script[u].w = w}}
-       IN IF ds = {} THEN Comps ELSE CHOOSE d \in ds : TRUE
+  IF wst[w] = "pending" THEN {wdeps[w]}
+  ELSE IF last'.a = "CallWhenReady" /\ last'.args.w = w THEN {last'.args.deps}
+  ELSE IF last'.a = "ListenTo" /\ last'.args.w = w THEN {Handles[w] \cup last'.args.deps}
+  ELSE LET ops == UNION {OpsOf(Script[v]) : v \in Waiters} \cup OpsOf(CRProg.p)
+                    \cup OpsOf(upprog')
+                    \cup (IF last'.a = "GoUp"
+                          THEN UNION {OpsOf(last'.args.hs[i]) : i \in DOMAIN last'.args.hs}
+                          ELSE {})
+       IN {op.d : op \in {q \in ops : q.k = "cwr" /\ q.w = w}}
 
 \* exactly once: a waiter is invoked by a call iff it becomes fired in it, once
 ExactlyOnce ==
@@ -287,21 +348,29 @@ NeverEarly ==
   [][\A lg \in Logs : \A i \in DOMAIN lg :
         /\ comps \subseteq lg[i].s /\ lg[i].s \subseteq comps'
         /\ (i > 1 => lg[i - 1].s \subseteq lg[i].s)
-        /\ (lg[i].k = "fire" => DeclDeps(lg[i].n) \subseteq lg[i].s)]_vars
+        /\ (lg[i].k = "fire" => \E d \in DeclDeps(lg[i].n) : d \subseteq lg[i].s)]_vars
 
-\* the lifecycle events a call raises are exactly those appended to life
+\* the lifecycle events a call raises are exactly those appended to life:
+\* GoingUp once, Up exactly once, whatever the handlers do re-entrantly
 LifeLogged ==
   [][\A lg \in Logs :
        /\ Len(life') >= Len(life) /\ SubSeq(life', 1, Len(life)) = life
        /\ [i \in 1..Len(LifeOf(lg)) |-> LifeOf(lg)[i].n] =
             SubSeq(life', Len(life) + 1, Len(life'))]_vars
 
+\* the ComponentRegistered program runs at most once, never before its component
+CROnce ==
+  [][\A lg \in Logs :
+       LET cr == {i \in DOMAIN lg : lg[i].k = "cr"} IN
+       /\ Cardinality(cr) = IF ~crdone /\ crdone' THEN 1 ELSE 0
+       /\ \A i \in cr : lg[i].n \in lg[i].s]_vars
+
 \* a failing callback changes nothing for the others: covered by Immediate
-\* (scripts "throw"/"regthrow" are fired like any other)
+\* (programs ending in "raise" are fired like any other)
 
 \* ---- export for the replay harness
 Catalog == [comps |-> Comps, sources |-> Sources, kind |-> Kind, script |-> Script,
-            handles |-> Handles]
+            handles |-> Handles, cr |-> CRProg]
 Bound   == Len(hist) <= D
 Export  == (Len(hist) = D) => PrintT(<<"H", ToJson(hist)>>)
 ExportT == PrintT(<<"T", ToJson(hist')>>)
